@@ -19,6 +19,12 @@ func (te *tableEngine) tableGameOpen() error {
 		return nil
 	}
 
+	// 已經開始新的一手遊戲 (遊戲狀態尚未由 updater 寫回)，不做任何事
+	switch te.table.State.Status {
+	case TableStateStatus_TableGameOpened, TableStateStatus_TableGamePlaying, TableStateStatus_TableGameSettled:
+		return nil
+	}
+
 	// 開局
 	newTable, err := te.openGame(te.table)
 
